@@ -78,6 +78,8 @@ def check(ctx, u, sa, mods):
     except Exception as e:
         ctx.viol("C12:exception:to-lru:" + ctx.exc("lru", e), wit)
         return
+    ctx.remember("ural.lru:lru_stems", [u], {"suffix_aware": sa}, stems, cap=3000)
+    ctx.remember("ural.lru:url_to_lru", [u], {"suffix_aware": sa}, lru, cap=3000)
     try:
         back1 = lru_to_url(lru)
         back2 = lru_to_url(stems)
